@@ -141,6 +141,12 @@ package mapr
 //@ define tokenShape(tk) == (!tk.quotesStripped && !contains(tk.str, "\"") && implies(tk.isBareword, len(tk.str) > 0 && !contains(tk.str, " ")))
 //@ func tokenize
 //@   assigns nothing
+//@   bind parts == strings.Split
+//@   bind words == strings.Fields
+//@   at-call strings.Split [the-query-itself-at-double-quotes] arg0 == old(queryStr) && arg1 == "\""
+//@   at-call strings.Fields [unquoted-stretch-commas-as-blanks] (rangeindex + 1) % 2 == 0 && arg0 == replaceAll(parts[rangeindex + 1], ",", " ")
+//@   loop 1 step [quoted-stretch-is-one-verbatim-token] implies(rangeindex % 2 == 1, len(tokens) == prev(len(tokens)) + 1 && tokens[len(tokens) - 1].str == parts[rangeindex] && !tokens[len(tokens) - 1].isBareword && forall(j, 0, prev(len(tokens)), tokens[j] == prev(tokens)[j]))
+//@   loop 2 step [one-bare-word-token-per-word] len(tokens) == prev(len(tokens)) + 1 && tokens[len(tokens) - 1].str == words[rangeindex] && tokens[len(tokens) - 1].isBareword && forall(j, 0, prev(len(tokens)), tokens[j] == prev(tokens)[j])
 //@   loop 1 invariant [shape] forall(j, 0, len(tokens), tokenShape(tokens[j]))
 //@   loop 2 invariant [shape] forall(j, 0, len(tokens), tokenShape(tokens[j]))
 //@   ensures [shape] forall(j, 0, len(result), tokenShape(result[j]))
